@@ -1,4 +1,10 @@
 
+(** val negb : bool -> bool **)
+
+let negb = function
+| true -> false
+| false -> true
+
 type nat =
 | O
 | S of nat
@@ -60,6 +66,32 @@ type z =
 | Z0
 | Zpos of positive
 | Zneg of positive
+
+module Nat =
+ struct
+  (** val leb : nat -> nat -> bool **)
+
+  let rec leb n0 m =
+    match n0 with
+    | O -> true
+    | S n' -> (match m with
+               | O -> false
+               | S m' -> leb n' m')
+
+  (** val ltb : nat -> nat -> bool **)
+
+  let ltb n0 m =
+    leb (S n0) m
+
+  (** val max : nat -> nat -> nat **)
+
+  let rec max n0 m =
+    match n0 with
+    | O -> m
+    | S n' -> (match m with
+               | O -> n0
+               | S m' -> S (max n' m'))
+ end
 
 module Pos =
  struct
@@ -592,7 +624,54 @@ let rec forallb f = function
 | [] -> true
 | a :: l0 -> (&&) (f a) (forallb f l0)
 
+(** val filter : ('a1 -> bool) -> 'a1 list -> 'a1 list **)
+
+let rec filter f = function
+| [] -> []
+| x :: l0 -> if f x then x :: (filter f l0) else filter f l0
+
+(** val firstn : nat -> 'a1 list -> 'a1 list **)
+
+let rec firstn n0 l =
+  match n0 with
+  | O -> []
+  | S n1 -> (match l with
+             | [] -> []
+             | a :: l0 -> a :: (firstn n1 l0))
+
+(** val skipn : nat -> 'a1 list -> 'a1 list **)
+
+let rec skipn n0 l =
+  match n0 with
+  | O -> l
+  | S n1 -> (match l with
+             | [] -> []
+             | _ :: l0 -> skipn n1 l0)
+
 type byte = n
+
+(** val list_eqb : n list -> n list -> bool **)
+
+let rec list_eqb a b =
+  match a with
+  | [] -> (match b with
+           | [] -> true
+           | _ :: _ -> false)
+  | x :: a' ->
+    (match b with
+     | [] -> false
+     | y :: b' -> (&&) (N.eqb x y) (list_eqb a' b'))
+
+(** val index_byte : n -> n list -> nat option **)
+
+let rec index_byte b = function
+| [] -> None
+| x :: l' ->
+  if N.eqb x b
+  then Some O
+  else (match index_byte b l' with
+        | Some i -> Some (S i)
+        | None -> None)
 
 (** val escape_leader : n **)
 
@@ -624,6 +703,41 @@ let escape_all_chars =
 
 let escape_all_first_code =
   Npos (XI (XO (XO (XO (XO (XO XH))))))
+
+(** val pause_gate_sleep_ms : n **)
+
+let pause_gate_sleep_ms =
+  Npos (XO (XO (XI (XO (XO (XI XH))))))
+
+(** val pause_reader_sleep_ms : n **)
+
+let pause_reader_sleep_ms =
+  Npos (XO (XO (XI (XO (XO (XI XH))))))
+
+(** val pause_protocol3 : n **)
+
+let pause_protocol3 =
+  Npos (XI XH)
+
+(** val pause_keepalive_written : n list **)
+
+let pause_keepalive_written =
+  (Npos (XI (XO (XI (XI (XI XH)))))) :: []
+
+(** val pause_keepalive_tested : n list **)
+
+let pause_keepalive_tested =
+  (Npos (XI (XO (XI (XI (XI XH)))))) :: []
+
+(** val pause_colon : n **)
+
+let pause_colon =
+  Npos (XO (XI (XO (XI (XI XH)))))
+
+(** val pause_timeout_unit_ms : n **)
+
+let pause_timeout_unit_ms =
+  Npos (XO (XO (XO (XI (XO (XI (XI (XI (XI XH)))))))))
 
 (** val leader : byte **)
 
@@ -722,13 +836,13 @@ let rec er_read t buffer cs size =
   match match buffer with
         | [] -> UOk ([], [])
         | _ :: _ -> unesc t buffer size with
-  | UOk (out, rem) ->
-    (match out with
+  | UOk (out0, rem) ->
+    (match out0 with
      | [] ->
        (match cs with
         | [] -> (REof, (rem, []))
         | c :: cs' -> er_read t (app rem c) cs' size)
-     | _ :: _ -> ((RData out), (rem, cs)))
+     | _ :: _ -> ((RData out0), (rem, cs)))
   | UErr c -> ((RErr c), (buffer, cs))
 
 (** val next_size : nat list -> nat -> nat * nat list **)
@@ -754,9 +868,9 @@ let rec er_run fuel t buffer cs sizes dflt =
     let (size, sizes') = next_size sizes dflt in
     let (r, p) = er_read t buffer cs size in
     (match r with
-     | RData out ->
+     | RData out0 ->
        let (b', cs') = p in
-       let (outs, e) = er_run f t b' cs' sizes' dflt in ((out :: outs), e)
+       let (outs, e) = er_run f t b' cs' sizes' dflt in ((out0 :: outs), e)
      | REof -> let (b', _) = p in ([], (EndEof b'))
      | RErr c -> ([], (EndErr c)))
 
@@ -843,3 +957,626 @@ let builtin_table escape_all =
   match table_of_json (builtin_json escape_all) with
   | Some t -> t
   | None -> []
+
+type cfg = { cT : nat; cSL : nat; cGL : nat; cP3 : bool }
+
+(** val cfg_of : n -> z -> n -> cfg **)
+
+let cfg_of unit_ms timeout_s protocol =
+  { cT =
+    (match timeout_s with
+     | Zpos p ->
+       N.to_nat (N.div (N.mul (Npos p) pause_timeout_unit_ms) unit_ms)
+     | _ -> O); cSL = (N.to_nat (N.div pause_reader_sleep_ms unit_ms)); cGL =
+    (N.to_nat (N.div pause_gate_sleep_ms unit_ms)); cP3 =
+    (N.leb pause_protocol3 protocol) }
+
+type timer = nat option
+
+(** val fresh : cfg -> timer **)
+
+let fresh cf =
+  match cf.cT with
+  | O -> None
+  | S n0 -> Some (S n0)
+
+(** val dec : timer -> timer **)
+
+let dec t = match t with
+| Some n0 -> (match n0 with
+              | O -> t
+              | S r -> Some r)
+| None -> t
+
+(** val fired : timer -> bool **)
+
+let fired = function
+| Some n0 -> (match n0 with
+              | O -> true
+              | S _ -> false)
+| None -> false
+
+type lclass =
+| CKeep
+| CGood
+| CNoColon
+| CWrongType
+
+(** val classify : n list -> n list -> lclass **)
+
+let classify expect line =
+  match index_byte pause_colon line with
+  | Some n0 ->
+    (match n0 with
+     | O -> CNoColon
+     | S i ->
+       if list_eqb (firstn i (skipn (S O) line)) expect
+       then if list_eqb (skipn (S (S i)) line) pause_keepalive_tested
+            then CKeep
+            else CGood
+       else CWrongType)
+  | None -> CNoColon
+
+(** val payload_of : n list -> n list **)
+
+let payload_of line =
+  match index_byte pause_colon line with
+  | Some i -> skipn (S i) line
+  | None -> []
+
+(** val keepalive_line : n list -> n list **)
+
+let keepalive_line typ =
+  (Npos (XI (XI (XO (XO (XO
+    XH)))))) :: (app typ (pause_colon :: pause_keepalive_written))
+
+type rcore = { pausing : bool; pidx : nat; pbt : bool; stopped : bool;
+               tmo : timer; ntmo : timer; rbt : bool; pflag : bool }
+
+(** val upd_pflag : rcore -> bool -> rcore **)
+
+let upd_pflag c b =
+  { pausing = c.pausing; pidx = c.pidx; pbt = c.pbt; stopped = c.stopped;
+    tmo = c.tmo; ntmo = c.ntmo; rbt = c.rbt; pflag = b }
+
+(** val upd_stopped : rcore -> rcore **)
+
+let upd_stopped c =
+  { pausing = c.pausing; pidx = c.pidx; pbt = c.pbt; stopped = true; tmo =
+    c.tmo; ntmo = c.ntmo; rbt = c.rbt; pflag = c.pflag }
+
+(** val upd_timers : rcore -> timer -> timer -> rcore **)
+
+let upd_timers c t nt =
+  { pausing = c.pausing; pidx = c.pidx; pbt = c.pbt; stopped = c.stopped;
+    tmo = t; ntmo = nt; rbt = c.rbt; pflag = c.pflag }
+
+(** val consume_rbt : rcore -> rcore **)
+
+let consume_rbt c =
+  { pausing = c.pausing; pidx = c.pidx; pbt = c.pbt; stopped = c.stopped;
+    tmo = c.tmo; ntmo = c.ntmo; rbt = false; pflag = true }
+
+(** val do_pause : rcore -> rcore **)
+
+let do_pause c =
+  if c.pbt
+  then { pausing = true; pidx = c.pidx; pbt = true; stopped = c.stopped;
+         tmo = c.tmo; ntmo = c.ntmo; rbt = c.rbt; pflag = c.pflag }
+  else { pausing = true; pidx = (S c.pidx); pbt = true; stopped = c.stopped;
+         tmo = c.tmo; ntmo = c.ntmo; rbt = c.rbt; pflag = c.pflag }
+
+(** val do_resume : cfg -> rcore -> bool -> rcore **)
+
+let do_resume cf c reading =
+  { pausing = false; pidx = c.pidx; pbt = false; stopped = c.stopped; tmo =
+    c.tmo; ntmo = (fresh cf); rbt = reading; pflag = c.pflag }
+
+type phase =
+| PIdle
+| PGate of nat * nat
+| PRead of nat
+
+(** val is_read : phase -> bool **)
+
+let is_read = function
+| PRead _ -> true
+| _ -> false
+
+type 'l ev =
+| ETick
+| EArrive of 'l
+| EPause
+| EResume
+| EStop
+| ECall
+
+type 'l out =
+| ODelivered of 'l * bool
+| OTimeout of bool
+| OStopped of bool
+| OBadLine of bool
+
+type 'l rstate = { core : rcore; queue : 'l list; ph : phase }
+
+(** val arm : cfg -> rcore -> rcore **)
+
+let arm cf c =
+  { pausing = c.pausing; pidx = c.pidx; pbt = c.pbt; stopped = c.stopped;
+    tmo = (fresh cf); ntmo = None; rbt = false; pflag = c.pflag }
+
+type 'l pre_res =
+| PExit of rcore * phase * 'l out option
+| PGo of rcore * nat
+
+(** val gate_check : cfg -> rcore -> nat -> 'a1 pre_res **)
+
+let gate_check cf c snap =
+  if (&&) cf.cP3 c.pausing
+  then if c.stopped
+       then PExit ((upd_pflag c true), PIdle, (Some (OStopped true)))
+       else PExit ((upd_pflag c true), (PGate (snap, cf.cSL)), None)
+  else if c.stopped
+       then PExit (c, PIdle, (Some (OStopped c.pflag)))
+       else PGo ((arm cf c), snap)
+
+type entry =
+| AtTop
+| AfterGate of nat
+| GotLine of nat
+
+(** val pre : cfg -> entry -> rcore -> 'a1 pre_res **)
+
+let pre cf e c =
+  match e with
+  | AtTop -> gate_check cf c (if cf.cP3 then c.pidx else O)
+  | AfterGate snap -> gate_check cf c snap
+  | GotLine snap -> PGo (c, snap)
+
+(** val rd :
+    ('a1 -> lclass) -> cfg -> 'a1 list -> entry -> rcore -> 'a1 rstate * 'a1
+    out option **)
+
+let rec rd cls cf q e c =
+  match pre cf e c with
+  | PExit (c', p, o) -> ({ core = c'; queue = q; ph = p }, o)
+  | PGo (c', snap) ->
+    (match q with
+     | [] -> ({ core = c'; queue = []; ph = (PRead snap) }, None)
+     | l :: q' ->
+       (match cls l with
+        | CKeep ->
+          if cf.cP3
+          then rd cls cf q' AtTop (upd_pflag c' true)
+          else ({ core = c'; queue = q'; ph = PIdle }, (Some (ODelivered (l,
+                 c'.pflag))))
+        | CGood ->
+          if (&&) cf.cP3 c'.rbt
+          then ({ core = (consume_rbt c'); queue = q'; ph = PIdle }, (Some
+                 (ODelivered (l, true))))
+          else ({ core = c'; queue = q'; ph = PIdle }, (Some (ODelivered (l,
+                 c'.pflag))))
+        | _ ->
+          ({ core = c'; queue = q'; ph = PIdle }, (Some (OBadLine c'.pflag)))))
+
+(** val on_timeout :
+    ('a1 -> lclass) -> cfg -> 'a1 list -> nat -> rcore -> 'a1 rstate * 'a1
+    out option **)
+
+let on_timeout cls cf q snap c =
+  if c.stopped
+  then ({ core = c; queue = q; ph = PIdle }, (Some (OStopped c.pflag)))
+  else if (&&) cf.cP3 (Nat.ltb snap c.pidx)
+       then rd cls cf q AtTop (upd_pflag c true)
+       else ({ core = c; queue = q; ph = PIdle }, (Some (OTimeout c.pflag)))
+
+(** val rtick :
+    ('a1 -> lclass) -> cfg -> 'a1 rstate -> 'a1 rstate * 'a1 out option **)
+
+let rtick cls cf s =
+  let c = upd_timers s.core (dec s.core.tmo) (dec s.core.ntmo) in
+  (match s.ph with
+   | PIdle -> ({ core = c; queue = s.queue; ph = PIdle }, None)
+   | PGate (snap, slp) ->
+     (match slp with
+      | O -> rd cls cf s.queue (AfterGate snap) c
+      | S n0 ->
+        (match n0 with
+         | O -> rd cls cf s.queue (AfterGate snap) c
+         | S k ->
+           ({ core = c; queue = s.queue; ph = (PGate (snap, (S k))) }, None)))
+   | PRead snap ->
+     if fired c.tmo
+     then (match c.ntmo with
+           | Some r ->
+             let c1 = upd_timers c (Some r) None in
+             if fired c1.tmo
+             then on_timeout cls cf s.queue snap c1
+             else ({ core = c1; queue = s.queue; ph = (PRead snap) }, None)
+           | None -> on_timeout cls cf s.queue snap c)
+     else ({ core = c; queue = s.queue; ph = (PRead snap) }, None))
+
+(** val rstep :
+    ('a1 -> lclass) -> cfg -> 'a1 rstate -> 'a1 ev -> 'a1 rstate * 'a1 out
+    option **)
+
+let rstep cls cf s = function
+| ETick -> rtick cls cf s
+| EArrive l ->
+  if s.core.stopped
+  then (s, None)
+  else (match s.ph with
+        | PRead snap ->
+          rd cls cf (app s.queue (l :: [])) (GotLine snap) s.core
+        | x ->
+          ({ core = s.core; queue = (app s.queue (l :: [])); ph = x }, None))
+| EPause -> ({ core = (do_pause s.core); queue = s.queue; ph = s.ph }, None)
+| EResume ->
+  ({ core = (do_resume cf s.core (is_read s.ph)); queue = s.queue; ph =
+    s.ph }, None)
+| EStop ->
+  if s.core.stopped
+  then (s, None)
+  else (match s.ph with
+        | PRead _ ->
+          ({ core = (upd_stopped s.core); queue = s.queue; ph = PIdle },
+            (Some (OStopped s.core.pflag)))
+        | x ->
+          ({ core = (upd_stopped s.core); queue = s.queue; ph = x }, None))
+| ECall ->
+  (match s.ph with
+   | PIdle -> rd cls cf s.queue AtTop (upd_pflag s.core false)
+   | _ -> (s, None))
+
+(** val rrun :
+    ('a1 -> lclass) -> cfg -> 'a1 rstate -> 'a1 ev list -> 'a1 rstate * 'a1
+    out option list **)
+
+let rec rrun cls cf s = function
+| [] -> (s, [])
+| e :: es' ->
+  let (s1, o) = rstep cls cf s e in
+  let (s2, os) = rrun cls cf s1 es' in (s2, (o :: os))
+
+(** val core0 : rcore **)
+
+let core0 =
+  { pausing = false; pidx = O; pbt = false; stopped = false; tmo = None;
+    ntmo = None; rbt = false; pflag = false }
+
+(** val rinit : 'a1 rstate **)
+
+let rinit =
+  { core = core0; queue = []; ph = PIdle }
+
+type sphase =
+| SIdle
+| SSleep of nat
+| SPassed
+
+type wout =
+| WKeep
+| WFrame
+| WStopErr
+
+(** val gate_enter : cfg -> bool -> bool -> sphase * wout list **)
+
+let gate_enter cf pausing0 stopped0 =
+  if (&&) cf.cP3 pausing0
+  then if stopped0
+       then (SIdle, (WStopErr :: []))
+       else ((SSleep cf.cGL), (WKeep :: []))
+  else if stopped0 then (SIdle, (WStopErr :: [])) else (SPassed, [])
+
+type sev =
+| SCall
+| STick
+| SWrite
+| SPauseEv
+| SResumeEv
+| SStopEv
+
+type sstate = { s_pausing : bool; s_stopped : bool; s_ph : sphase }
+
+(** val sphase_step :
+    cfg -> bool -> bool -> sphase -> sev -> sphase * wout list **)
+
+let sphase_step cf pausing0 stopped0 p = function
+| SCall ->
+  (match p with
+   | SIdle -> gate_enter cf pausing0 stopped0
+   | _ -> (p, []))
+| STick ->
+  (match p with
+   | SSleep slp ->
+     (match slp with
+      | O -> gate_enter cf pausing0 stopped0
+      | S n0 ->
+        (match n0 with
+         | O -> gate_enter cf pausing0 stopped0
+         | S k -> ((SSleep (S k)), [])))
+   | _ -> (p, []))
+| SWrite -> (match p with
+             | SPassed -> (SIdle, (WFrame :: []))
+             | _ -> (p, []))
+| _ -> (p, [])
+
+(** val sstep : cfg -> sstate -> sev -> sstate * wout list **)
+
+let sstep cf s e = match e with
+| SPauseEv ->
+  ({ s_pausing = true; s_stopped = s.s_stopped; s_ph = s.s_ph }, [])
+| SResumeEv ->
+  ({ s_pausing = false; s_stopped = s.s_stopped; s_ph = s.s_ph }, [])
+| SStopEv ->
+  ({ s_pausing = s.s_pausing; s_stopped = true; s_ph = s.s_ph }, [])
+| _ ->
+  let (p, w) = sphase_step cf s.s_pausing s.s_stopped s.s_ph e in
+  ({ s_pausing = s.s_pausing; s_stopped = s.s_stopped; s_ph = p }, w)
+
+(** val srun : cfg -> sstate -> sev list -> sstate * wout list **)
+
+let rec srun cf s = function
+| [] -> (s, [])
+| e :: es' ->
+  let (s1, w) = sstep cf s e in
+  let (s2, ws) = srun cf s1 es' in (s2, (app w ws))
+
+(** val count_keeps : wout list -> nat **)
+
+let count_keeps ws =
+  length (filter (fun w -> match w with
+                           | WKeep -> true
+                           | _ -> false) ws)
+
+type wline =
+| WLKeep
+| WLData of nat
+
+(** val cls_w : wline -> lclass **)
+
+let cls_w = function
+| WLKeep -> CKeep
+| WLData _ -> CGood
+
+(** val cls_a : nat -> lclass **)
+
+let cls_a _ =
+  CGood
+
+type csph =
+| CSGate of nat
+| CSIn of nat * sphase
+| CSPush of nat
+| CSDone
+
+type epi =
+| EpNone
+| EpPausing of nat
+| EpResumed of nat * nat
+
+type cstate = { cA : nat rstate; cAcked : nat; cS : csph; cCnt : nat;
+                cR : wline rstate; cDeliv : nat list; cErrA : bool;
+                cErrR : bool; cEp : epi }
+
+type cev =
+| XTick
+| XPause
+| XResume
+| XSCall
+| XSWrite
+| XSPush
+| XRCall
+| XATake
+
+(** val slack : cfg -> nat **)
+
+let slack cf =
+  Nat.max cf.cSL cf.cGL
+
+(** val set_A : cstate -> nat rstate -> nat -> bool -> cstate **)
+
+let set_A s a acked err =
+  { cA = a; cAcked = acked; cS = s.cS; cCnt = s.cCnt; cR = s.cR; cDeliv =
+    s.cDeliv; cErrA = err; cErrR = s.cErrR; cEp = s.cEp }
+
+(** val feedA : cfg -> cstate -> nat ev -> cstate **)
+
+let feedA cf s e =
+  let (a, o) = rstep cls_a cf s.cA e in
+  (match o with
+   | Some o0 ->
+     (match o0 with
+      | ODelivered (_, _) -> set_A s a (S s.cAcked) s.cErrA
+      | _ -> set_A s a s.cAcked true)
+   | None -> set_A s a s.cAcked s.cErrA)
+
+(** val feedR : cfg -> cstate -> wline ev -> cstate **)
+
+let feedR cf s e =
+  let (r, o) = rstep cls_w cf s.cR e in
+  (match o with
+   | Some o0 ->
+     (match o0 with
+      | ODelivered (l, _) ->
+        (match l with
+         | WLKeep ->
+           { cA = s.cA; cAcked = s.cAcked; cS = s.cS; cCnt = s.cCnt; cR = r;
+             cDeliv = s.cDeliv; cErrA = s.cErrA; cErrR = true; cEp = s.cEp }
+         | WLData k ->
+           feedA cf { cA = s.cA; cAcked = s.cAcked; cS = s.cS; cCnt = s.cCnt;
+             cR = r; cDeliv = (app s.cDeliv (k :: [])); cErrA = s.cErrA;
+             cErrR = s.cErrR; cEp = s.cEp } (EArrive k))
+      | _ ->
+        { cA = s.cA; cAcked = s.cAcked; cS = s.cS; cCnt = s.cCnt; cR = r;
+          cDeliv = s.cDeliv; cErrA = s.cErrA; cErrR = true; cEp = s.cEp })
+   | None ->
+     { cA = s.cA; cAcked = s.cAcked; cS = s.cS; cCnt = s.cCnt; cR = r;
+       cDeliv = s.cDeliv; cErrA = s.cErrA; cErrR = s.cErrR; cEp = s.cEp })
+
+(** val set_S : cstate -> csph -> cstate **)
+
+let set_S s p =
+  { cA = s.cA; cAcked = s.cAcked; cS = p; cCnt = s.cCnt; cR = s.cR; cDeliv =
+    s.cDeliv; cErrA = s.cErrA; cErrR = s.cErrR; cEp = s.cEp }
+
+(** val set_cnt : cstate -> nat -> cstate **)
+
+let set_cnt s c =
+  { cA = s.cA; cAcked = s.cAcked; cS = s.cS; cCnt = c; cR = s.cR; cDeliv =
+    s.cDeliv; cErrA = s.cErrA; cErrR = s.cErrR; cEp = s.cEp }
+
+(** val set_ep : cstate -> epi -> cstate **)
+
+let set_ep s e =
+  { cA = s.cA; cAcked = s.cAcked; cS = s.cS; cCnt = s.cCnt; cR = s.cR;
+    cDeliv = s.cDeliv; cErrA = s.cErrA; cErrR = s.cErrR; cEp = e }
+
+(** val emit : cfg -> cstate -> nat -> wout list -> cstate **)
+
+let rec emit cf s k = function
+| [] -> s
+| w :: ws' ->
+  (match w with
+   | WKeep -> emit cf (feedR cf s (EArrive WLKeep)) k ws'
+   | WFrame -> emit cf (feedR cf s (EArrive (WLData k))) k ws'
+   | WStopErr -> emit cf s k ws')
+
+(** val our_pausing : cstate -> bool **)
+
+let our_pausing s =
+  s.cA.core.pausing
+
+(** val our_stopped : cstate -> bool **)
+
+let our_stopped s =
+  s.cA.core.stopped
+
+(** val s_move : cfg -> cstate -> nat -> sphase -> sev -> cstate **)
+
+let s_move cf s k p e =
+  let (p', ws) = sphase_step cf (our_pausing s) (our_stopped s) p e in
+  let s1 = emit cf s k ws in
+  (match p' with
+   | SIdle ->
+     (match e with
+      | SWrite -> set_S s1 (CSPush k)
+      | _ -> set_S s1 (CSIn (k, p')))
+   | _ -> set_S s1 (CSIn (k, p')))
+
+(** val r_live : nat -> cstate -> bool **)
+
+let r_live n0 s =
+  Nat.ltb (length s.cDeliv) n0
+
+(** val quiescent : nat -> nat -> cstate -> bool **)
+
+let quiescent n0 w s =
+  (&&)
+    ((&&)
+      (match s.cS with
+       | CSGate _ -> false
+       | CSIn (_, p) -> (match p with
+                         | SSleep _ -> true
+                         | _ -> false)
+       | CSPush _ -> Nat.leb w s.cCnt
+       | CSDone -> true)
+      (negb (match s.cR.ph with
+             | PIdle -> r_live n0 s
+             | _ -> false)))
+    (negb (match s.cA.ph with
+           | PIdle -> Nat.ltb O s.cCnt
+           | _ -> false))
+
+(** val ep_pause : epi -> epi **)
+
+let ep_pause = function
+| EpNone -> EpPausing O
+| EpPausing e0 -> EpPausing e0
+| EpResumed (e0, j) -> EpPausing (add e0 j)
+
+(** val ep_tick : cfg -> epi -> epi **)
+
+let ep_tick cf = function
+| EpNone -> EpNone
+| EpPausing e0 -> EpPausing (S e0)
+| EpResumed (e0, j) ->
+  if Nat.ltb (S j) (slack cf) then EpResumed (e0, (S j)) else EpNone
+
+(** val cstep : cfg -> nat -> nat -> nat -> cstate -> cev -> cstate option **)
+
+let cstep cf n0 w p s = function
+| XTick ->
+  if (&&) (quiescent n0 w s)
+       (match s.cEp with
+        | EpPausing e -> Nat.ltb e p
+        | _ -> true)
+  then let s1 = feedA cf (feedR cf s ETick) ETick in
+       let s2 =
+         match s1.cS with
+         | CSIn (k, p0) ->
+           (match p0 with
+            | SSleep j -> s_move cf s1 k (SSleep j) STick
+            | _ -> s1)
+         | _ -> s1
+       in
+       Some (set_ep s2 (ep_tick cf s.cEp))
+  else None
+| XPause -> Some (set_ep (feedA cf s EPause) (ep_pause s.cEp))
+| XResume ->
+  (match s.cEp with
+   | EpPausing e ->
+     if our_pausing s
+     then Some (set_ep (feedA cf s EResume) (EpResumed (e, O)))
+     else None
+   | _ -> None)
+| XSCall ->
+  (match s.cS with
+   | CSGate k -> Some (s_move cf s k SIdle SCall)
+   | _ -> None)
+| XSWrite ->
+  (match s.cS with
+   | CSIn (k, p0) ->
+     (match p0 with
+      | SPassed -> Some (s_move cf s k SPassed SWrite)
+      | _ -> None)
+   | _ -> None)
+| XSPush ->
+  (match s.cS with
+   | CSPush k ->
+     if Nat.ltb s.cCnt w
+     then Some
+            (set_S (set_cnt s (S s.cCnt))
+              (if Nat.ltb (S k) n0 then CSGate (S k) else CSDone))
+     else None
+   | _ -> None)
+| XRCall ->
+  (match s.cR.ph with
+   | PIdle -> if r_live n0 s then Some (feedR cf s ECall) else None
+   | _ -> None)
+| XATake ->
+  (match s.cA.ph with
+   | PIdle ->
+     (match s.cCnt with
+      | O -> None
+      | S c -> Some (feedA cf (set_cnt s c) ECall))
+   | _ -> None)
+
+(** val crun :
+    cfg -> nat -> nat -> nat -> cstate -> cev list -> cstate option **)
+
+let rec crun cf n0 w p s = function
+| [] -> Some s
+| x :: xs' ->
+  (match cstep cf n0 w p s x with
+   | Some s' -> crun cf n0 w p s' xs'
+   | None -> None)
+
+(** val cinit : nat -> cstate **)
+
+let cinit n0 =
+  { cA = rinit; cAcked = O; cS =
+    (match n0 with
+     | O -> CSDone
+     | S _ -> CSGate O); cCnt = O; cR = rinit; cDeliv = []; cErrA = false;
+    cErrR = false; cEp = EpNone }
